@@ -7,10 +7,9 @@ Model of the token ring and the cluster topology types (C04; reused by C05 / C12
                       the code only ever compares them for equality.
 * `Ring α`          ← `TokenRing<ElemT>` (`routing/locator/token_ring.rs`): a `Vec<(Token, ElemT)>` kept sorted by
                       token with the *stable* `sort_by_key` (`mkRing`).
-* `binSearch`       ← `slice::binary_search_by` of the Rust standard library the harness is built with (1.95; the
-                      branch-free loop used since 1.82) followed by the `Ok(i) | Err(i) => i` of `ring_range_full`.
-                      On a ring without duplicate tokens it is the index of the first token `≥ tok`
-                      (`Proofs.Ring.binSearch_eq_firstGE`); on duplicates it returns what that loop returns.
+* `firstGE`         ← `self.ring.partition_point(|e| e.0 < token)` (`token_ring.rs:36-40`, after the repair ad6cb90):
+                      on a ring sorted by token this is the index of the first member whose token is `≥ tok`, i.e.
+                      the number of leading members with a smaller token (std's contract for a partitioned slice).
 * `ringRangeFull`, `ringRange`, `getElemForToken` ← `ring_range_full` (`ring[i..] ++ ring`, `take(len)`),
                       `ring_range`, `get_elem_for_token` (`token_ring.rs:35-59`).
 * `uniq`            ← `itertools::Itertools::unique` (first occurrence wins; the `HashSet` of seen elements is the
@@ -38,32 +37,8 @@ def tokenNew (v : Int) : Int := if v = -9223372036854775808 then 922337203685477
 def mkRing {α : Type} (entries : List (Int × α)) : Ring α :=
   entries.mergeSort (fun a b => decide (a.1 ≤ b.1))
 
-/-- The `while size > 1` loop of `binary_search_by`: `half = size / 2; mid = base + half;
-base = if slice[mid] > target { base } else { mid }; size -= half`.  `fuel` bounds the iterations
-(`size` at least halves... decreases by `half ≥ 1`), it is started with the slice length. -/
-def bsLoop (toks : List Int) (tok : Int) : (fuel size base : Nat) → Nat
-  | 0, _, base => base
-  | fuel + 1, size, base =>
-    if size ≤ 1 then base
-    else
-      let half := size / 2
-      let mid := base + half
-      let base' := match toks[mid]? with
-        | some e => if tok < e then base else mid
-        | none => base
-      bsLoop toks tok fuel (size - half) base'
-
-/-- `match ring.binary_search_by(|e| e.0.cmp(&token)) { Ok(i) => i, Err(i) => i }`. -/
-def binSearch (toks : List Int) (tok : Int) : Nat :=
-  if toks.isEmpty then 0
-  else
-    let base := bsLoop toks tok toks.length toks.length 0
-    match toks[base]? with
-    | some e => if e = tok then base else if e < tok then base + 1 else base
-    | none => base
-
-/-- Index of the first token `≥ tok` (= number of leading tokens `< tok`): what "clockwise from the token"
-means on a sorted ring.  Specification side; the code uses `binSearch`. -/
+/-- `partition_point(|e| e.0 < tok)` on the (sorted) token sequence: index of the first token `≥ tok`
+(= number of leading tokens `< tok`). -/
 def firstGE (toks : List Int) (tok : Int) : Nat := (toks.takeWhile (fun t => decide (t < tok))).length
 
 /-- Rotation of a list at index `i`: `l[i..] ++ l[..i]`. -/
@@ -71,7 +46,7 @@ def rotateAt {α : Type} (l : List α) (i : Nat) : List α := l.drop i ++ l.take
 
 /-- `ring_range_full`: `ring[i..].iter().chain(ring.iter()).take(ring.len())`. -/
 def ringRangeFull {α : Type} (r : Ring α) (tok : Int) : Ring α :=
-  rotateAt r (binSearch (r.map (·.1)) tok)
+  rotateAt r (firstGE (r.map (·.1)) tok)
 
 /-- `ring_range`: the elements only. -/
 def ringRange {α : Type} (r : Ring α) (tok : Int) : List α := (ringRangeFull r tok).map (·.2)
